@@ -378,7 +378,8 @@ Section Sim.
     match o with
     | NewList _ | NewMap _ | NewSet _ | Get _ _ | Slice _ _ _ | Contains _ _ | Len _ | Copy _ | Count _ _ | Index _ _
     | Reversed _ | Keys _ | Concat _ _ | MapCb _ _ | FilterCb _ _ | MGetD _ _ _ | MPop _ _ _ | MSetDefault _ _ _
-    | MUpdate _ _ | MValues _ | MItems _ | SAdd _ _ | SRemove _ _ | SUnion _ _ | SInter _ _ | Sorted _ => simgoal alias s o
+    | MUpdate _ _ | MValues _ | MItems _ | SAdd _ _ | SRemove _ _ | SUnion _ _ | SInter _ _ | Sorted _
+    | Enumerate _ => simgoal alias s o
     | _ => True
     end.
   Proof.
@@ -409,6 +410,7 @@ Section Sim.
     - destruct (nth_error s r) as [[t|m|st]|] eqn:En; easy_sim F.
     - destruct (nth_error s r) as [[t|m|st]|] eqn:En; destruct (nth_error s r2) as [[t2|m2|st2]|] eqn:En2; easy_sim F.
     - destruct (nth_error s r) as [[t|m|st]|] eqn:En; destruct (nth_error s r2) as [[t2|m2|st2]|] eqn:En2; easy_sim F.
+    - destruct (nth_error s r) as [[t|m|st]|] eqn:En; easy_sim F.
   Qed.
 
   Ltac wf_at F En Wt := pose proof (Forall_nth_error _ wfo _ _ _ F En) as Wt; simpl in Wt.
